@@ -93,7 +93,7 @@ impl Keyspaces {
 //@contract-file fn/jmgr_rotate_journal.c
 //@end
 
-//@extract src/supervisor.rs :: Supervisor :: build_seqno_map world props=C10+C02
+//@extract src/supervisor.rs :: Supervisor :: build_seqno_map world props=C10+C02+C09
 //@contract-file fn/sup_build_seqno_map.c
 //@loop 0
             invariant
